@@ -34,6 +34,7 @@ Hypothesis upd_below_max : forall va vb md sa sb sx,
   k_ltb K (k_upd K va vb md sa sb sx) (k_max K) = true.
 Hypothesis rename_reducible : below_kind_of meth = BelowRename ->
   forall va vb md sa sb sx, (uses_sizes_ab meth = true -> 0 < sa /\ 0 < sb) ->
+  k_ltb K va md = false -> k_ltb K vb md = false ->
   k_ltb K (k_upd K va vb md sa sb sx) va = false \/ k_ltb K (k_upd K va vb md sa sb sx) vb = false.
 Hypothesis untracked_grows : tracks_candidates meth = false ->
   forall va vb md sa sb sx, k_ltb K (k_upd K va vb md sa sb sx) vb = false.
